@@ -514,6 +514,18 @@ def search(ctx):
         ctx.count('oracle_runs')
     for f in oracle_guards():
         ctx.fail(f['signature'], f['what'], dict(kind='guards'))
+    # a distribution parameter replaced on an initialised simulation
+    for how in sorted(SWAPS):
+        cfg = impl.gen_sim_config(ctx.rng, small=True, diseases=['sir'], networks=['random'], demographics=[])
+        cfg['diseases'][0].update(beta=0.8, init_prev=0.3)
+        k = ctx.rng.choice([0, 0, 2])
+        try:
+            fails, refused = oracle_swap(cfg, how, k)
+        except Exception as e:
+            ctx.count('oracle_swap_other_error'); ctx.notes['last_swap_error'] = f'{type(e).__name__}: {e}'; continue
+        ctx.count('oracle_swaps'); ctx.count('oracle_swaps_refused', int(refused))
+        for f in fails:
+            ctx.fail(f['signature'], f['what'], dict(kind='swap', cfg=cfg, how=how, after_steps=k))
     # a module that draws from one distribution more often than the per-step stride: the next step must be refused
     # (DistSeedRepeatError) rather than silently overlap with the draws already made
     for n_calls in ([1200] if not ctx.thorough else [999, 1000, 1200, 2500]):
@@ -598,6 +610,47 @@ def oracle_run(cfg):
     if len(set(seeds)) != len(seeds):
         fails.append(dict(signature=dict(oracle='seed-repeat'), what='two distributions share a seed'))
     return fails
+
+
+SWAPS = dict(dict_type=lambda ss: dict(type='normal', loc=5.0, scale=1.0), fresh_dist=lambda ss: ss.normal(loc=5.0, scale=1.0),
+             dict_same_type=lambda ss: dict(type='lognorm_ex', mean=5.0, std=1.0))
+
+
+def oracle_swap(cfg, how, after_steps):
+    """ A distribution-valued parameter replaced through Pars.update() on an initialised (possibly running) simulation.
+        The replacement was not there when the distributions were seeded: either it refuses to draw
+        (DistNotInitializedError) or — if it has been initialised meanwhile — every draw of every Dist object in the
+        process still starts from a state no earlier draw started from, and no two Dist objects that draw share a seed. """
+    import starsim as ss
+    D = ss.Dist
+    orig_rvs = D.rvs
+    seen = {}; seeds = {}; fails = []
+
+    def w(self, n=1, reset=False):
+        pre = full_state(self)
+        out = orig_rvs(self, n, reset=reset)
+        if np.size(out) and self._size:
+            if pre in seen and len(fails) < 3:
+                fails.append(dict(signature=dict(oracle='state-reuse', dist='swapped-in'), what=f'after `{how}` replaced sir.pars.dur_inf on the initialised sim: a draw of `{self.trace}` ({type(self).__name__}) starts from a generator state already used by `{seen[pre]}`'))
+            seen[pre] = f'{self.trace} ({type(self).__name__})'
+            other = seeds.get(self.seed)
+            if other is not None and other[0] != id(self) and len(fails) < 3:
+                fails.append(dict(signature=dict(oracle='seed-repeat', dist='swapped-in'), what=f'after `{how}` replaced sir.pars.dur_inf on the initialised sim: two distributions that draw share seed {self.seed}: {other[1]} and {self.trace} ({type(self).__name__})'))
+            seeds.setdefault(self.seed, (id(self), f'{self.trace} ({type(self).__name__})'))
+        return out
+    D.rvs = w
+    refused = False
+    try:
+        sim = impl.build_sim(cfg); sim.init()
+        for _ in range(after_steps): sim.run_one_step()
+        sim.diseases[0].pars.update(dur_inf=SWAPS[how](ss))
+        try:
+            sim.run()
+        except ss.distributions.DistNotInitializedError:
+            refused = True
+    finally:
+        D.rvs = orig_rvs
+    return fails, refused
 
 
 def oracle_heavy(n_calls, npts=4):
@@ -716,4 +769,6 @@ def replay(ctx, data):
         return got != (len(set(data['seeds'])) == len(data['seeds']))
     if data.get('kind') == 'opseq':
         return bool(oracle_sequence(data['case'], 10**9))
+    if data.get('kind') == 'swap':
+        return bool(oracle_swap(data['cfg'], data['how'], data['after_steps'])[0])
     return False
